@@ -11,6 +11,7 @@ package authorize_sender
 import (
 	"bufio"
 	"context"
+	"encoding/base64"
 	"fmt"
 	"strings"
 	"testing"
@@ -99,6 +100,13 @@ func (m c15Mailbox) render() string {
 		return "\"" + decoy + "\" <" + a + ">"
 	case 4:
 		return "=?utf-8?q?" + strings.ReplaceAll(strings.ReplaceAll(decoy, "@", "=40"), ".", "=2E") + "?= <" + a + ">"
+	case 6:
+		// encoded words that decode to structural characters: decoded as a whole, the field would read
+		// "decoy ( <a> ()" - the author is a
+		return "=?utf-8?q?" + strings.ReplaceAll(strings.ReplaceAll(decoy, "@", "=40"), ".", "=2E") + "_=28?= <" + a + "> (=?utf-8?q?=29?=)"
+	case 7:
+		// decoded as a whole: "<decoy>, <a>" - the author is a alone
+		return "=?utf-8?b?" + base64.StdEncoding.EncodeToString([]byte("<"+decoy+">,")) + "?= <" + a + ">"
 	default:
 		return a + " (" + decoy + ")"
 	}
@@ -252,7 +260,7 @@ func c15GenSpelled(t *rapid.T, n int, label string) c15Spelled {
 }
 
 func c15GenBox(t *rapid.T, bias int) c15Mailbox {
-	b := c15Mailbox{Addr: c15GenSpelled(t, len(c15Addrs), "addr"), Style: rapid.IntRange(0, 5).Draw(t, "style"), Decoy: rapid.IntRange(0, len(c15Addrs)-1).Draw(t, "decoy")}
+	b := c15Mailbox{Addr: c15GenSpelled(t, len(c15Addrs), "addr"), Style: rapid.IntRange(0, 7).Draw(t, "style"), Decoy: rapid.IntRange(0, len(c15Addrs)-1).Draw(t, "decoy")}
 	if bias >= 0 && rapid.IntRange(0, 2).Draw(t, "useuser") != 0 {
 		b.Addr.Idx = bias
 	}
@@ -295,7 +303,7 @@ func c15Gen(t *rapid.T) c15Scenario {
 	}
 	if rapid.IntRange(0, 2).Draw(t, "sender") == 0 {
 		b := c15GenBox(t, bias)
-		if b.Style == 5 {
+		if b.Style == 5 || b.Style == 6 {
 			b.Style = 0
 		}
 		sc.Sender = &b
